@@ -1,5 +1,5 @@
 """Obligation runner: one z3 solver per worker process, push/pop per query, timing and triviality accounting."""
-import time
+import time, os, subprocess, hashlib
 from z3 import Solver, Not, And, simplify, is_false, is_true, sat, unsat, unknown, BoolVal, is_bv_value, BitVecNumRef
 
 
@@ -7,6 +7,7 @@ class Prover:
     def __init__(self, timeout_ms, seed=0):
         self.s = Solver(); self.s.set('timeout', timeout_ms); self.timeout_ms = timeout_ms; self.fresh_mode = False
         if seed: self.s.set('random_seed', seed % (1 << 30))
+        self.seed_ = seed
         self.out = dict(obligations=0, discharged=0, inconclusive=[], solver_s=0.0, nontrivial=[], witnesses=0, twins=0,
                         samples=[], errors=[], programs=0, functions={})
         self.candidates = []
@@ -42,12 +43,44 @@ class Prover:
         self.out['nontrivial'].append(name)
         r, m = self.check(assumptions, [neg])
         self.last = (list(assumptions), neg)
+        if r in ('unsat', 'sat'): self.cross_check(name, assumptions, neg, r)
         if r == 'unsat':
             self.out['discharged'] += 1
             if sample is not None and len(self.out['samples']) < 3: self.out['samples'].append(sample)
         elif r == 'unknown':
             self.out['inconclusive'].append(name)
         return r, m
+    # ---- second opinion: a seed-driven sample of the non-trivial queries is exported as SMT-LIB2 and re-decided by cvc5 and by the
+    # older z3 4.8.12 binary; a disagreement with the verdict used is an encoding/solver alarm (machinery error, exit 2), never a verdict
+    XCHECK_PER_WORKER = int(os.environ.get('VERIF_XCHECK', '3'))
+    def cross_check(self, name, assumptions, neg, verdict):
+        n = self.out.setdefault('xcheck', dict(exported=0, agree=0, unknown=0, disagree=0))
+        if n['exported'] >= self.XCHECK_PER_WORKER: return
+        h = int(hashlib.sha256((name + str(len(self.out['nontrivial']))).encode()).hexdigest(), 16)
+        seed = getattr(self, 'seed_', 0)
+        if (h + seed) % 7 != 0: return
+        try:
+            s2 = Solver()
+            for a in assumptions: s2.add(a)
+            s2.add(neg)
+            text = '(set-logic ALL)\n' + s2.to_smt2()
+            if len(text) > 3_000_000: return
+            d = os.path.join(os.path.dirname(os.path.dirname(os.path.abspath(__file__))), '.work', 'xcheck'); os.makedirs(d, exist_ok=True)
+            p = os.path.join(d, f'q-{os.getpid()}-{n["exported"]}.smt2'); open(p, 'w').write(text)
+            n['exported'] += 1
+            for cmd in (['cvc5', '--lang', 'smt2', '--tlimit=10000', p], ['/usr/bin/z3', '-T:10', p]):
+                try: o = subprocess.run(cmd, stdout=subprocess.PIPE, stderr=subprocess.STDOUT, timeout=15).stdout.decode()
+                except Exception: n['unknown'] += 1; continue
+                first = [l.strip() for l in o.splitlines() if l.strip() in ('sat', 'unsat', 'unknown', 'timeout')]
+                if '(error' in o or not first or first[0] in ('unknown', 'timeout'): n['unknown'] += 1
+                elif first[0] == verdict: n['agree'] += 1
+                else:
+                    n['disagree'] += 1; self.out['errors'].append(f'solver disagreement on {name}: z3 (python) says {verdict}, {cmd[0]} says {first[0]} ({p})')
+            if not n['disagree']:
+                try: os.remove(p)
+                except OSError: pass
+        except Exception as e:
+            n['unknown'] += 1
     def refine(self, tiers, m0):
         """re-solve the last failing query under successively weaker 'replay-friendly' preferences; first sat wins"""
         a, neg = self.last
